@@ -10,6 +10,10 @@ fn join_whitespace(components: &[String]) -> String {
     components.join(" ")
 }
 
+fn join_comma(components: &[String]) -> String {
+    components.join(", ")
+}
+
 fn deserialize_architectures(value: &str) -> Result<Vec<String>, String> {
     Ok(value.split_whitespace().map(|s| s.to_string()).collect())
 }
@@ -75,7 +79,12 @@ pub struct Release {
 }
 
 fn deserialize_binaries(value: &str) -> Result<Vec<String>, String> {
-    Ok(value.split_whitespace().map(|s| s.to_string()).collect())
+    // Sources indices write "Binary: a, b"; older ones separate by blanks only
+    Ok(value
+        .split(|c: char| c == ',' || c.is_whitespace())
+        .filter(|s| !s.is_empty())
+        .map(|s| s.to_string())
+        .collect())
 }
 
 fn join_lines(components: &[String]) -> String {
@@ -105,7 +114,7 @@ pub struct Source {
     /// Package of the source
     pub package: String,
 
-    #[deb822(field = "Binary", deserialize_with = deserialize_binaries, serialize_with = join_whitespace)]
+    #[deb822(field = "Binary", deserialize_with = deserialize_binaries, serialize_with = join_comma)]
     /// Binaries of the source
     pub binaries: Option<Vec<String>>,
 
